@@ -1,4 +1,5 @@
 import StepModel.LazyRefs
+import StepModel.LazyDictLemmas
 /-!
 # C11 — inverse attributes resolved on load contain exactly the real referrers
 
@@ -185,5 +186,115 @@ example :
                             ⟨5, [1], [⟨1, 10, false, []⟩, ⟨1, 11, false, [1]⟩]⟩]
     resolve allTrue pop 1 ⟨0, true, 1, 10, 1⟩ = .ok [2, 4] ∧ resolve allTrue pop 1 ⟨1, true, 2, 20, 2⟩ = .ok [3] := by
   decide
+
+/-! ## the dictionary side (`StepModel/LazyDict.lean`) -/
+
+/-- the tie: `superInvAttrIter::next` scans the supertype it arrives at (regenerated from superInvAttrIter.h) -/
+theorem C11_iterator_shape : superIterAdvances = true := rfl
+
+/-- `supertypesIterator` reaches exactly the proper supertypes: for every dictionary whose supertype links decrease some rank
+    bounded by the number of entities (= acyclic), `x` is visited iff `x` is a supertype of a declared supertype of `n`, at any depth -/
+theorem C11_walk_exact (d : Dict) (rank : Nat → Nat) (h : Ranked d rank) (n x : Nat) :
+    x ∈ supWalk d n ↔ ∃ s ∈ supsOf d n, SupStar d s x := mem_supWalk d rank h.sups h.2 n x
+
+/-- `InitIAttrs` gives a slot to exactly the inverse attributes declared by the entity or by any supertype at any depth,
+    along any inheritance path (C11-5) … -/
+theorem C11_slots_exact (d : Dict) (rank : Nat → Nat) (h : Ranked d rank) (n : Nat) (ia : InvDecl) :
+    ia ∈ slots d n ↔ ∃ e, SupStar d n e ∧ ia ∈ invsOf d e := by
+  have hr := h.sups
+  have hb := h.2
+  unfold slots slotsWith scannedWith
+  rw [C11_iterator_shape]
+  simp only [↓reduceIte, mem_dedupBy, List.mem_flatMap, List.mem_cons]
+  constructor
+  · rintro ⟨e, he, hia⟩
+    exact ⟨e, (supStar_iff d rank hr hb n e).mpr he, hia⟩
+  · rintro ⟨e, he, hia⟩
+    exact ⟨e, (supStar_iff d rank hr hb n e).mp he, hia⟩
+
+/-- … each exactly once, however many paths lead to the declaring supertype -/
+theorem C11_slots_nodup (d : Dict) (n : Nat) : (slots d n).Nodup := nodup_dedupBy _
+
+theorem C11_ialist_nodup (d : Dict) (n : Nat) : (iaList d n).Nodup := nodup_dedupBy _
+
+/-- every inverse attribute `lazyRefs::getInverseAttrs` finds has a slot: `lazyRefs::invAttr` cannot `abort()` -/
+theorem C11_slots_cover (d : Dict) (n : Nat) : slotsCover d n = true := by
+  unfold slotsCover
+  rw [List.all_eq_true]
+  intro ia hia
+  unfold iaList at hia
+  rw [mem_dedupBy, List.mem_flatMap] at hia
+  obtain ⟨e, he, hie⟩ := hia
+  have : ia ∈ slots d n := by
+    unfold slots slotsWith scannedWith
+    rw [C11_iterator_shape]
+    simp only [↓reduceIte, mem_dedupBy, List.mem_flatMap, List.mem_cons]
+    rcases List.mem_append.mp he with h | h
+    · exact ⟨e, Or.inr h, hie⟩
+    · have : e = n := by simpa using h
+      exact ⟨e, Or.inl this, hie⟩
+  simpa using this
+
+/-- the entity a keyword names, with every supertype -/
+theorem C11_types_closure (d : Dict) (rank : Nat → Nat) (h : Ranked d rank) (k x : Nat) :
+    x ∈ typesOf d k ↔ SupStar d k x := by
+  unfold typesOf
+  rw [mem_dedupBy, List.mem_cons, supStar_iff d rank h.sups h.2]
+
+/-- **the resolver on dictionary + population**: when the inverse attribute has a slot (always, by `C11_slots_cover`) the
+    result is `specRefs` of the loaded instances — with `mkInst` giving each instance the supertype closure of its keyword
+    (`C11_types_closure`) and its attributes in `attrOrder` layout, and `mkIA` the descriptor `InitIAttrs` links -/
+theorem C11_exact_dict (d : Dict) (pop : List PInst) (x k : Nat) (iv : InvDecl) (hs : iv ∈ slots d k)
+    (hu : ∀ p ∈ pop, UniqueAttrs (mkInst d p)) (ha : iv.aggr = true) :
+    resolveD d pop x k iv = .ok (specRefs (pop.map (mkInst d)) x (mkIA d iv)) := by
+  unfold resolveD
+  have : (slots d k).contains iv = true := by simpa using hs
+  simp only [this, Bool.not_true, Bool.false_eq_true, ↓reduceIte]
+  apply C11_exact
+  · intro i hi
+    rw [List.mem_map] at hi
+    obtain ⟨p, hp, rfl⟩ := hi
+    exact hu p hp
+  · simpa [mkIA] using ha
+
+/-- dictionary of the witnesses below: 0 `tg` (inverse `byr : SET OF rel FOR one`), 1 `tsub < tg`, 2 `tsub2 < tsub`,
+    3 `rel` (attribute 10 = `one`), 4 `rre < rel` redeclaring `one`, 5 `dl < tg`, 6 `dr < tg`, 7 `dj < (dl, dr)` -/
+def demoDict : Dict :=
+  [⟨0, [], [(20, false)], [], [⟨0, true, 3, 10⟩]⟩, ⟨1, [0], [], [], []⟩, ⟨2, [1], [], [], []⟩,
+   ⟨3, [], [(10, false)], [], []⟩, ⟨4, [3], [(11, false)], [10], []⟩,
+   ⟨5, [0], [], [], []⟩, ⟨6, [0], [], [], []⟩, ⟨7, [5, 6], [], [], []⟩]
+
+/-- the old `superInvAttrIter` (scanning the supertype `supertypesIterator::next()` leaves): `tsub2` gets no slot for the inverse
+    it inherits from its grand-supertype, `lazyRefs::invAttr` aborts (replayed on the tree before C11-5) -/
+theorem C11_old_iterator_witness :
+    slotsWith false demoDict 2 = [] ∧ iaList demoDict 2 = [⟨0, true, 3, 10⟩] ∧ slotsWith true demoDict 2 = [⟨0, true, 3, 10⟩] := by
+  decide
+
+/-- a diamond: `supertypesIterator` reaches the top once per path; only the set/map keeps the inverse attribute single
+    (a list instead of the set resolves it twice and every referrer is appended twice — seed C11-c2) -/
+theorem C11_diamond_paths_witness :
+    supWalk demoDict 7 = [5, 6, 0, 0] ∧ iaList demoDict 7 = [⟨0, true, 3, 10⟩] ∧ slots demoDict 7 = [⟨0, true, 3, 10⟩] := by
+  decide
+
+/-- **finding `complex-referrer`**: `#3` is an externally mapped instance with a REL part whose `one` mentions `#1`. The lazy
+    index has it under the empty keyword (`kw = none`), so it is no candidate: the resolver answers `[2]`, while the same
+    instance read with its REL part's type would be a referrer (`[2, 3]`) -/
+theorem C11_complex_referrer_witness :
+    resolveD demoDict [⟨1, some 0, [[]]⟩, ⟨2, some 3, [[1]]⟩, ⟨3, none, [[1]]⟩] 1 0 ⟨0, true, 3, 10⟩ = .ok [2] ∧
+    resolveD demoDict [⟨1, some 0, [[]]⟩, ⟨2, some 3, [[1]]⟩, ⟨3, some 3, [[1]]⟩] 1 0 ⟨0, true, 3, 10⟩ = .ok [2, 3] := by
+  decide
+
+/-- **finding `redeclared-inverted-attr`**: `#3=RRE(#1,…)`, `rre` redeclares `rel.one`; `STEPread` skips the value of a
+    redeclared attribute, the loaded `#3` mentions nothing and is missing from `#1.byr` (`[2]`); the file mentions `#1` there -/
+theorem C11_redeclared_witness :
+    resolveD demoDict [⟨1, some 1, [[]]⟩, ⟨2, some 3, [[1]]⟩, ⟨3, some 4, [[1], []]⟩] 1 1 ⟨0, true, 3, 10⟩ = .ok [2] ∧
+    (mkInst demoDict ⟨3, some 4, [[1], []]⟩).attrs = [⟨3, 10, false, []⟩, ⟨4, 11, false, []⟩] := by
+  decide
+
+/-- non-vacuity: the demo dictionary (grand-supertype, diamond, redeclaration) is ranked, its instances have unique descriptors -/
+def demoRank (n : Nat) : Nat := if n = 0 ∨ n = 3 then 0 else if n = 2 ∨ n = 7 then 2 else if n ≤ 6 then 1 else 0
+
+example : Ranked demoDict demoRank :=
+  ⟨by decide, fun n => by unfold demoRank; split <;> (try split) <;> (try split) <;> simp [demoDict]⟩
 
 end StepModel.LazyRefs
